@@ -10,38 +10,46 @@
 EXTENDS Integers, Sequences, TLC, Json
 
 CONSTANTS MaxLen, FIXED, EmitTables
-VARIABLES file, missing, pos, vec, state     \* state: "reading" | "accepted" | "rejected"
-vars == <<file, missing, pos, vec, state>>
+VARIABLES file, missing, pos, vec, state,    \* state: "reading" | "accepted" | "rejected"
+          sep, half                         \* sep[i]: token i is followed by a blank instead of a newline; half: inside a glued token
+vars == <<file, missing, pos, vec, state, sep, half>>
 
-Junk == -1
-\* token values: strictly increasing small numbers make a valid radii file; 0 stands for a non-increasing value
-Tokens == {Junk, 1, 2, 3, 4}
+Junk == -1      \* a token that is not a number ("abc")
+Inf == -2       \* "inf": not a finite coordinate (formatted extraction of a double rejects it)
+\* 1..4: numbers (strictly increasing values make a valid radii file); 11..14: the number v = t - 10 with garbage glued to
+\* it ("0.3cm", "0.3;"): the extraction reads v and the NEXT extraction fails on the rest
+Tokens == {Junk, Inf, 1, 2, 3, 4, 12, 13}
+Glued(t) == t >= 11
+Pure(t) == t >= 1 /\ t <= 4
 
 Init == /\ missing \in BOOLEAN
         /\ file \in UNION {[1..n -> Tokens] : n \in 0..MaxLen}
         /\ (missing => file = <<>>)
-        /\ pos = 1 /\ vec = <<>> /\ state = "reading"
+        /\ pos = 1 /\ vec = <<>> /\ state = "reading" /\ half = FALSE
+        /\ sep \in [1..Len(file) -> BOOLEAN]            \* whitespace of either kind separates values
 
 ValidArray(v) == Len(v) >= 2 /\ \A i \in 1..(Len(v) - 1) : v[i] < v[i + 1]     \* checkParameters (radii)
 
 \* while (inputFile >> value) push_back(value);
-ReadNumber == /\ state = "reading" /\ ~missing /\ pos <= Len(file) /\ file[pos] # Junk
-              /\ vec' = Append(vec, file[pos]) /\ pos' = pos + 1 /\ UNCHANGED <<file, missing, state>>
+ReadNumber == /\ state = "reading" /\ ~missing /\ pos <= Len(file) /\ ~half /\ (Pure(file[pos]) \/ Glued(file[pos]))
+              /\ vec' = Append(vec, IF Glued(file[pos]) THEN file[pos] - 10 ELSE file[pos])
+              /\ (IF Glued(file[pos]) THEN pos' = pos /\ half' = TRUE ELSE pos' = pos + 1 /\ half' = FALSE)
+              /\ UNCHANGED <<file, missing, state, sep>>
 \* extraction fails: at the end of the file, or at a token that is not a number
 Stop == /\ state = "reading"
-        /\ (IF missing \/ pos > Len(file) THEN TRUE ELSE file[pos] = Junk)
+        /\ (IF missing \/ pos > Len(file) THEN TRUE ELSE (half \/ file[pos] \in {Junk, Inf}))
         /\ LET atEof == missing \/ pos > Len(file)
                malformed == ~atEof
            IN state' = IF "F10" \in FIXED /\ malformed THEN "rejected"          \* throw: malformed value
                        ELSE IF ValidArray(vec) THEN "accepted" ELSE "rejected"   \* checkParameters
-        /\ UNCHANGED <<file, missing, pos, vec>>
+        /\ UNCHANGED <<file, missing, pos, vec, sep, half>>
 Next == ReadNumber \/ Stop
 Spec == Init /\ [][Next]_vars
 
-Clean(f) == \A i \in 1..Len(f) : f[i] # Junk
+Clean(f) == \A i \in 1..Len(f) : Pure(f[i])
 \* accepted => the file had no fault and the grid is the whole file
 AcceptsOnlyWholeFiles == state = "accepted" => (~missing /\ Clean(file) /\ vec = file /\ ValidArray(file))
 RejectsFaults == (state \in {"accepted", "rejected"} /\ (missing \/ ~Clean(file) \/ ~ValidArray(file))) => state = "rejected"
 Done == state \in {"accepted", "rejected"}
-Emit == IF EmitTables /\ Done THEN PrintT("@@CASE " \o ToJson([file |-> file, missing |-> missing, outcome |-> state])) ELSE TRUE
+Emit == IF EmitTables /\ Done THEN PrintT("@@CASE " \o ToJson([file |-> file, sep |-> sep, missing |-> missing, outcome |-> state])) ELSE TRUE
 =============================================================================
